@@ -62,6 +62,36 @@ KERNELS = [
     dict(name="kw_get_dist_state", lean="get_dist_state", src="harness/kern_wrap_lzma_common.c"),
     dict(name="kw_literal_mask_calc", lean="literal_mask_calc", src="harness/kern_wrap_lzma_common.c", domain={"lc": (0, 8), "lp": (0, 4)}),
     dict(name="get_dist_slot", src="harness/kern_wrap_lzma_common.c"),
+    # ---- second batch
+    dict(name="lzma_lzma2_props_encode", src=L + "lzma/lzma2_encoder.c"),
+    dict(name="lzma_stream_flags_compare", src=L + "common/stream_flags_common.c"),
+    # Backward Size <-> stored field: `write32le(out + 4, backward_size / 4 - 1)` and `backward_size = (field + 1) * 4`
+    dict(name="lzma_stream_footer_encode", lean="footer_backward_size_field", src=L + "common/stream_flags_encoder.c",
+         fragment=dict(call_arg=["*", 1], reads="backward_size", nth=0)),
+    dict(name="lzma_stream_footer_decode", lean="footer_backward_size_of_field", src=L + "common/stream_flags_decoder.c",
+         fragment=dict(first=dict(assign="backward_size", nth=1), last=dict(assign="backward_size"))),
+    dict(name="lzma_block_compressed_size", src=L + "common/block_util.c"),
+    # lzma_block_header_size: the fixed part (sizes of the two optional VLI fields) and the final padding to a multiple of four
+    dict(name="lzma_block_header_size", lean="block_header_size_fixed", src=L + "common/block_header_encoder.c",
+         fragment=dict(first=dict(decl="size"), last=dict(if_reads="uncompressed_size"), results=["size"])),
+    dict(name="lzma_block_header_size", lean="block_header_size_pad", src=L + "common/block_header_encoder.c",
+         fragment=dict(first=dict(assign="header_size"), last=dict(assign="header_size"))),
+    dict(name="lzma_index_padding_size", src=L + "common/index.c"),
+    dict(name="lzma_index_hash_size", src=L + "common/index_hash.c"),
+    dict(name="hash_append", lean="index_hash_append_sizes", src=L + "common/index_hash.c",
+         fragment=dict(first=dict(assign="blocks_size"), last=dict(assign="count"))),
+    dict(name="lzma_index_hash_append", lean="index_hash_append_limits", src=L + "common/index_hash.c",
+         fragment=dict(first=dict(if_reads="blocks_size"), last=dict(if_reads="blocks_size"))),
+    # lz_decoder.c: minimum dictionary, rounding up to a multiple of 16, allocation size
+    dict(name="lzma_lz_decoder_init", lean="lz_decoder_dict_alloc", src=L + "lz/lz_decoder.c",
+         fragment=dict(first=dict(if_reads="dict_size"), last=dict(decl="alloc_size"), results=["alloc_size"])),
+    dict(name="mf_get_hash_bytes", src=L + "lz/lz_encoder.c"),
+    dict(name="lz_encoder_prepare", src=L + "lz/lz_encoder.c", ignore_calls=["lzma_free"], points=200, outline_ifs=True,
+         domain={"lz_options_dict_size": (4090, 1610612740), "lz_options_match_finder": (0, 21), "lz_options_nice_len": (0, 280),
+                 "lz_options_match_len_max": (270, 275), "lz_options_before_size": (0, 4294967295), "lz_options_after_size": (0, 4294967295)}),
+    dict(name="comp_blk_size", src=L + "common/stream_decoder_mt.c"),
+    dict(name="round_up_to_mib", src="src/xz/util.c", tu="src/xz/util.c"),
+    dict(name="hardware_memlimit_get", src="src/xz/hardware.c", tu="src/xz/hardware.c"),
 ]
 
 
@@ -70,19 +100,30 @@ def src_path(spec):
     return os.path.join(vlib.ROOT, s) if s.startswith("harness/") else os.path.join(vlib.REPO, s)
 
 
+def key_of(spec):
+    return spec.get("lean") or spec["name"]
+
+
 def unit_tag(spec):
     s = spec["src"]
     s = s[len(L):] if s.startswith(L) else s
     return os.path.splitext(s)[0].replace("/", "_")
 
 
-def run_probe(name, text, log):
+DEFAULT_TU = "src/liblzma/common/common.c"
+
+
+def flags_for(spec):
+    return [f for f in vlib.lib_flags("asan", tu=spec.get("tu", DEFAULT_TU)) if f.startswith(("-D", "-I", "-std"))] + ["-I" + os.path.join(vlib.ROOT, "harness")]
+
+
+def run_probe(name, text, log, tu=DEFAULT_TU):
     """compile (against the asan build, only when something changed) and run a generated probe; returns stdout or None"""
     d = os.path.join(vlib.CACHE, "kern")
     os.makedirs(d, exist_ok=True)
     path = os.path.join(d, name + ".c")
     vlib.write_if_changed(path, text)
-    ok, out, exe = vlib.harness_build(name, [path], extra=["-DNDEBUG", "-ffunction-sections", "-fdata-sections", "-Wl,--gc-sections"])
+    ok, out, exe = vlib.harness_build(name, [path], extra=["-DNDEBUG", "-ffunction-sections", "-fdata-sections", "-Wl,--gc-sections"], tu=tu, libs=("-Wl,--gc-sections",))
     if not ok:
         log.append("probe %s does not compile:\n%s" % (name, out[-3000:]))
         return None
@@ -98,12 +139,11 @@ def regenerate(kernels=None, write=True):
     """Returns (failures, info): failures = [(kernel name, reason)], info = dict with the translated kernels and timings."""
     kernels = KERNELS if kernels is None else kernels
     t0 = time.time()
-    flags = [f for f in vlib.lib_flags("asan") if f.startswith(("-D", "-I", "-std"))] + ["-I" + os.path.join(vlib.ROOT, "harness")]
     failures, log = [], []
 
     def get_ast(spec):
         try:
-            return c2lean.clang_function_ast(src_path(spec), spec["name"], flags)
+            return c2lean.clang_function_ast(src_path(spec), spec["name"], flags_for(spec))
         except c2lean.Unsupported as e:
             return e
         except Exception as e:          # clang missing, timeout, …
@@ -115,23 +155,24 @@ def regenerate(kernels=None, write=True):
         reg, res = {}, {}
         for spec, ast in zip(kernels, asts):
             if isinstance(ast, Exception):
-                res[spec["name"]] = ast
+                res[key_of(spec)] = ast
                 continue
             try:
                 k = c2lean.FnTranslator(ast, spec, reg, consts_by_unit.get(spec["src"], {})).translate()
-                reg[spec["name"]] = k
-                res[spec["name"]] = k
+                if "fragment" not in spec:
+                    reg[spec["name"]] = k
+                res[key_of(spec)] = k
             except c2lean.Unsupported as e:
-                res[spec["name"]] = e
+                res[key_of(spec)] = e
             except RecursionError:
-                res[spec["name"]] = c2lean.Unsupported("expression nesting too deep")
+                res[key_of(spec)] = c2lean.Unsupported("expression nesting too deep")
         return res
 
     # pass 1 (constants unknown): which sizeof / enumerator / table values each unit needs
     res = translate_all({})
     units = {}
     for spec in kernels:
-        r = res[spec["name"]]
+        r = res[key_of(spec)]
         if isinstance(r, c2lean.Kernel) and r.requests:
             units.setdefault(spec["src"], set()).update(r.requests)
     consts_by_unit = {}
@@ -139,7 +180,7 @@ def regenerate(kernels=None, write=True):
     def const_probe(item):
         src, reqs = item
         spec0 = [s for s in kernels if s["src"] == src][0]
-        out = run_probe("kconst_" + unit_tag(spec0), c2lean.probe_source(src_path(spec0), [], reqs), log)
+        out = run_probe("kconst_" + unit_tag(spec0), c2lean.probe_source(src_path(spec0), [], reqs), log, spec0.get("tu", DEFAULT_TU))
         return src, (c2lean.parse_probe_output(out)[0] if out is not None else None)
     for src, consts in vlib.par_map(const_probe, sorted(units.items())):
         if consts is None or any(r not in consts for r in units[src]):
@@ -151,33 +192,33 @@ def regenerate(kernels=None, write=True):
     bad_units = {src for src, c in consts_by_unit.items() if c is None}
     res = translate_all({src: c for src, c in consts_by_unit.items() if c is not None})
     for spec in kernels:
-        r = res[spec["name"]]
+        r = res[key_of(spec)]
         if isinstance(r, c2lean.Kernel) and spec["src"] in bad_units and r.requests:
-            res[spec["name"]] = c2lean.Unsupported("the constants probe for %s failed: %s" % (spec["src"], (log or ["?"])[-1][-600:]))
+            res[key_of(spec)] = c2lean.Unsupported("the constants probe for %s failed: %s" % (spec["src"], (log or ["?"])[-1][-600:]))
     # a kernel whose callee failed must fail too (translate_all already guarantees it: the callee is not in the registry)
     # grid probes, one per unit
     by_unit = {}
     for spec in kernels:
-        k = res[spec["name"]]
+        k = res[key_of(spec)]
         if isinstance(k, c2lean.Kernel) and not getattr(k, "no_probe", False):
             try:
                 pts = c2lean.make_grid(k, spec)
                 c2lean.probe_kernel_c(k, spec, pts, k.lean_name)       # fails early if the kernel cannot be probed
                 by_unit.setdefault(spec["src"], []).append((k.lean_name, k, spec, pts))
             except c2lean.Unsupported as e:
-                res[spec["name"]] = e
+                res[key_of(spec)] = e
 
     def grid_probe(item):
         src, items = item
-        out = run_probe("kgrid_" + unit_tag(items[0][2]), c2lean.probe_source(src_path(items[0][2]), items, set()), log)
+        out = run_probe("kgrid_" + unit_tag(items[0][2]), c2lean.probe_source(src_path(items[0][2]), items, set()), log, items[0][2].get("tu", DEFAULT_TU))
         return src, (c2lean.parse_probe_output(out)[1] if out is not None else None)
     grids = {}
     for src, g in vlib.par_map(grid_probe, sorted(by_unit.items())):
         for tag, k, spec, pts in by_unit[src]:
             if g is None or len(g.get(tag, {})) != len(pts):
-                res[spec["name"]] = c2lean.Unsupported("the grid probe for %s failed: %s" % (src, (log or ["?"])[-1][-1500:]))
+                res[key_of(spec)] = c2lean.Unsupported("the grid probe for %s failed: %s" % (src, (log or ["?"])[-1][-1500:]))
             else:
-                grids[spec["name"]] = (pts, [g[tag][i] for i in range(len(pts))])
+                grids[key_of(spec)] = (pts, [g[tag][i] for i in range(len(pts))])
     t_grid = time.time() - t0 - t_ast - t_const
 
     # ---- Lean output
@@ -194,10 +235,10 @@ def regenerate(kernels=None, write=True):
             "-/", "namespace XzVerif.Gen.Kernels", ""]
     tables_done = set()
     for spec in kernels:
-        k = res[spec["name"]]
+        k = res[key_of(spec)]
         if not isinstance(k, c2lean.Kernel):
-            failures.append((spec["name"], str(k)))
-            gen += ["-- NOT TRANSLATED: `%s` (%s): %s" % (spec["name"], spec["src"], str(k).split("\n")[0][:300]), ""]
+            failures.append((key_of(spec), str(k)))
+            gen += ["-- NOT TRANSLATED: `%s` (%s): %s" % (key_of(spec), spec["src"], str(k).split("\n")[0][:300]), ""]
             continue
         for r in sorted(k.requests):
             if r.startswith("table:") and r not in tables_done:
@@ -206,7 +247,7 @@ def regenerate(kernels=None, write=True):
                 tabs += [c2lean.table_def(c2lean.lean_ident(name), consts_by_unit[spec["src"]][r], "`const %s %s[%s]` as linked into the probe" % (et, name, ln)), ""]
         for d in k.defs:
             gen += [d, ""]
-        done.add(spec["name"])
+        done.add(key_of(spec))
     gen += ["end XzVerif.Gen.Kernels", ""]
     tabs += ["end XzVerif.Gen.Kernels", ""]
     grid = ["/-", "  GENERATED by tools/kernels_stage.py — do not edit.",
@@ -216,17 +257,24 @@ def regenerate(kernels=None, write=True):
             "namespace XzVerif.Gen.KernelsGrid", "open XzVerif.Gen.Kernels", ""]
     npts = 0
     for spec in kernels:
-        k = res[spec["name"]]
-        if not isinstance(k, c2lean.Kernel) or spec["name"] not in grids:
+        k = res[key_of(spec)]
+        if not isinstance(k, c2lean.Kernel) or key_of(spec) not in grids:
             continue
-        pts, vals = grids[spec["name"]]
+        pts, vals = grids[key_of(spec)]
         tys = ([k.ret] if k.ret is not None else []) + [o[1] for o in k.outputs]
         grid.append("/-! `%s`: %d points -/" % (k.cname, len(pts)))
         for p, v in zip(pts, vals):
             args = " ".join(c2lean.lean_val(a, prm.ct) for a, prm in zip(p, k.params))
             rv = [c2lean.lean_val(x, t) for x, t in zip(v, tys)]
-            rhs = rv[0] if len(rv) == 1 else "(" + ", ".join(rv) + ")"
-            grid.append("example : %s%s = %s := by decide +kernel" % (k.lean_name, " " + args if args else "", rhs))
+            call = k.lean_name + (" " + args if args else "")
+            if len(rv) > 6:
+                # `Decidable (a = b)` is not synthesised for tuples this wide: compare component by component
+                n = len(rv)
+                proj = lambda j: ".2" * j + (".1" if j < n - 1 else "")
+                grid.append("example : %s := by decide +kernel" % " ∧ ".join("(%s)%s = %s" % (call, proj(j), x) for j, x in enumerate(rv)))
+            else:
+                rhs = rv[0] if len(rv) == 1 else "(" + ", ".join(rv) + ")"
+                grid.append("example : %s = %s := by decide +kernel" % (call, rhs))
             npts += 1
         grid.append("")
     grid += ["end XzVerif.Gen.KernelsGrid", ""]
